@@ -2,3 +2,4 @@ pub mod calendar;
 pub mod fields;
 pub mod format;
 pub mod instant;
+pub mod cron;
